@@ -770,8 +770,13 @@ class PayloadSK(Payload):
     def decrypt(self, crypto):
         iv = self.ciphertext[:crypto.cipher.block_size]
         ciphertext = self.ciphertext[crypto.cipher.block_size:-crypto.integrity.hash_size]
+        if (len(iv) != crypto.cipher.block_size or len(ciphertext) == 0
+                or len(ciphertext) % crypto.cipher.block_size != 0):
+            raise InvalidSyntax('Encrypted payload is not a whole (non-zero) number of cipher blocks')
         decrypted = crypto.cipher.decrypt(crypto.sk_e, bytes(iv), bytes(ciphertext))
         padlen = decrypted[-1]
+        if padlen + 1 > len(decrypted):
+            raise InvalidSyntax('Pad Length is larger than the encrypted payload')
         return iv, decrypted[:-1 - padlen]
 
     @classmethod
